@@ -14,6 +14,7 @@
 #           T                       one clock tick (only if the generator is running)
 #           J <fn>                  clock jumps to frame fn (= idle ticks)
 # Answer: cfgerr:<Exc>  or  per-op observations joined by " ; " then " | " and the final state.
+from excname import exc_name
 import sys, types, logging
 
 sys.path.insert(0, sys.argv[1])
@@ -294,7 +295,7 @@ def obs(exc):
         o.append("stale:%d" % StaleCounter.n)
         StaleCounter.n = 0
     if exc is not None:
-        o.append("EXC:" + type(exc).__name__)
+        o.append("EXC:" + exc_name(exc))
     return ",".join(o) if o else "."
 
 def fmt_opt(v):
@@ -405,7 +406,7 @@ def run_line(line):
     try:
         app = build(extra)
     except Exception as e:
-        return "cfgerr:" + type(e).__name__
+        return "cfgerr:" + exc_name(e)
     trxs = app.trx_list.trx_list
     CUR_APP[0] = app
     CALLS.clear()
@@ -455,7 +456,7 @@ def main():
         try:
             print(run_line(line))
         except Exception as e:
-            print("HARNESS-EXC %s %s" % (type(e).__name__, e))
+            print("HARNESS-EXC %s %s" % (exc_name(e), e))
         sys.stdout.flush()
 
 if __name__ == "__main__":
